@@ -34,7 +34,7 @@ def showHErr : HErr → String
   | .devNum => "devnum" | .glob => "glob"
 
 def showDErr : DErr → String
-  | .insaneName => "insane" | .path => "path" | .canon => "canon"
+  | .insaneName => "insane" | .path => "path" | .canon => "canon" | .newline => "newline"
 
 def showEntry (e : Entry) : String :=
   s!"{toHexTok e.name} {e.mode} {e.uid} {e.gid} {e.rdev} " ++ (match e.extra with | none => "NULL" | some x => toHexTok x)
